@@ -353,6 +353,46 @@ func scenarioMultiLineSelecting() string {
 		strings.Join(statuses, ","), counts, len(left), strings.Join(problems, " ; "), v)
 }
 
+// C19: selecting values that the index does not hand back as they were written (bytes that are not UTF-8 come back from the JSON
+// index as U+FFFD): the same few requests repeated — the footprint does not grow with the repetitions, and an invalidation
+// leaves nothing
+func scenarioUnprintableSelecting() string {
+	rc := &rawConn{Conn: memcache.Open(), live: map[string]bool{}}
+	dsn := registerConn(rc)
+	defer unregisterConn(dsn)
+	org := &scOrigin{vary: "X-Session", cc: "max-age=600"}
+	rt := httpcache.NewTransport(dsn, httpcache.WithUpstream(org))
+	u := "http://a.test/doc"
+	a := http.Header{"X-Session": {"name=Jos\xe9"}}
+	b := http.Header{"X-Session": {"name=\xff\xfe; id=1"}}
+	c := http.Header{"X-Session": {"plain"}}
+	var counts []int
+	for round := 0; round < 12; round++ {
+		for _, h := range []http.Header{a, b, c} {
+			scDo(rt, "GET", u, h)
+		}
+		counts = append(counts, len(rc.keys()))
+	}
+	scDo(rt, "POST", u, nil)
+	left := rc.keys()
+	var problems []string
+	if counts[len(counts)-1] > counts[1] {
+		problems = append(problems, fmt.Sprintf("footprint grows with repetitions: %d keys after 2 rounds, %d after %d", counts[1], counts[len(counts)-1], len(counts)))
+	}
+	if counts[len(counts)-1] > 4 {
+		problems = append(problems, fmt.Sprintf("footprint: %d keys for one resource and three variants (the index and three entries at most)", counts[len(counts)-1]))
+	}
+	if len(left) != 0 {
+		problems = append(problems, fmt.Sprintf("orphan-after-invalidation: %d keys left after the unsafe request", len(left)))
+	}
+	v := "ok"
+	if len(problems) > 0 {
+		v = "BAD"
+	}
+	return fmt.Sprintf("SCENARIO prop=C19 code=C19:non-utf8-selecting-value-footprint name=unprintable-selecting | keys_per_round=%v keys_after_post=%d problems=%q %s\n",
+		counts, len(left), strings.Join(problems, " ; "), v)
+}
+
 func TestScenarios(t *testing.T) {
 	out := os.Getenv("VERIF_OUT")
 	if out == "" {
@@ -364,6 +404,7 @@ func TestScenarios(t *testing.T) {
 	lines = append(lines, scenarioDanglingRef("en"), scenarioDanglingRef("fr"))
 	lines = append(lines, scenarioPlaintextInEncryptedDir()...)
 	lines = append(lines, scenarioMultiLineSelecting())
+	lines = append(lines, scenarioUnprintableSelecting())
 	if err := writeLines(filepath.Join(out, "scenarios.txt"), lines); err != nil {
 		t.Fatal(err)
 	}
